@@ -103,6 +103,14 @@ def IsTopEig [Add K] [Zero K] [Mul K] [One K] [LE K] {n d : Nat} (B : Mat n n K)
   ∀ (μ : K) (w : Vec n K), (∃ i, w i ≠ 0) → (∀ i, (sumFin n fun j => B i j * w j) = μ * w i) →
     (∀ c, (sumFin n fun i => w i * V i c) = 0) → ∀ c, μ ≤ lam c
 
+/-- the mirror image for the methods that take the *smallest* eigenvalues (KLLE, KLTSA, HLLE, Laplacian
+    eigenmaps, NPE, LLTSA, LPP): an eigenvector orthogonal to all columns of `V` has an eigenvalue that is not
+    below any of the selected ones -/
+def IsBottomEig [Add K] [Zero K] [Mul K] [One K] [LE K] {n d : Nat} (B : Mat n n K) (V : Mat n d K) (lam : Vec d K) : Prop :=
+  IsEigSys B V lam ∧
+  ∀ (μ : K) (w : Vec n K), (∃ i, w i ≠ 0) → (∀ i, (sumFin n fun j => B i j * w j) = μ * w i) →
+    (∀ c, (sumFin n fun i => w i * V i c) = 0) → ∀ c, lam c ≤ μ
+
 /-- the embedding built from an eigen-system: column `c` of `V` scaled by `s c` (`s c = sqrt (lam c)` in MDS,
     Isomap, Kernel PCA; `sqrt` enters as any `s ≥ 0` with `s² = lam`) -/
 def embedOf [Mul K] {n d : Nat} (V : Mat n d K) (s : Vec d K) : Mat n d K := fun i c => V i c * s c
